@@ -920,6 +920,11 @@ var c07Plain = []c07Item{
 	{sql: "is_int(value)", alias: "isi", name: "isi", tp: kvql.TBOOL},
 	{sql: "key > 'k04'", alias: "late", name: "late", tp: kvql.TBOOL},
 	{sql: "value ^= '1'", alias: "one", name: "one", tp: kvql.TBOOL},
+	// names that look like the keywords (written in back quotes they are ordinary field names):
+	// a decision taken on the NAME of an order field instead of the field it resolves to shows here
+	{sql: "upper(value)", alias: "`KEY`", name: "KEY", tp: kvql.TSTR},
+	{sql: "int(value)", alias: "`VALUE`", name: "VALUE", tp: kvql.TNUMBER},
+	{sql: "value", alias: "`key`", name: "key", tp: kvql.TSTR},
 }
 
 var c07Aggr = []c07Item{
@@ -1105,6 +1110,18 @@ func c07PartB(c *runCtx, e *emitter, r *rng) {
 				}
 				c07RunStmt(e, 1, items, star, "key ^= ''", "", []int{0}, []int{2}, false, kvs, B)
 				c07RunStmt(e, 1, items, star, "key ^= ''", "", []int{0, 1}, []int{1, 0}, false, kvs, B)
+			}
+		}
+	}
+	// B1b: a single ascending ORDER BY over a field NAMED like the key keyword
+	for _, n := range []int{2, 5, 9, 40} {
+		kvs := c07Store(r, n, 8)
+		for _, B := range []int{1, 3, 32} {
+			for _, ki := range []int{len(c07Plain) - 3, len(c07Plain) - 2, len(c07Plain) - 1} {
+				items := []c07Item{c07Plain[ki], c07Plain[0]}
+				for _, d := range []int{0, 1, 2} {
+					c07RunStmt(e, 1, items, false, "key ^= ''", "", []int{0}, []int{d}, false, kvs, B)
+				}
 			}
 		}
 	}
